@@ -75,6 +75,8 @@ class World:
         self.guard_hits = Counter()
         self.history = []        # every executed op (roots included), for second-schedule runs
         self.armed = set()
+        from . import findings
+        self.open_guards = findings.open_ids()
         self.evals = 0
 
     def count(self, name, n=1):
